@@ -844,3 +844,62 @@ def _z3_app(name, t, A):
         + "(declare-const r!!! %s)(assert (= r!!! (%s %s)))" % (z3_sort(t.sort).sexpr(), name, " ".join(names)))
     app = e[0].arg(1)
     return z3.substitute(app, *[(z3.Const(n, a.sort()), a) for n, a in zip(names, A)])
+
+
+# ---------------------------------------------------------------- cone-of-influence slicing
+_syms_cache = {}
+_NO_LINK = {"is_hex", "hexs", "unhex"}     # ubiquitous pure UFs do not link otherwise unrelated conjuncts
+
+
+def symbols(t):
+    """free constants and uninterpreted function names of a term"""
+    r = _syms_cache.get(t)
+    if r is not None:
+        return r
+    out = set()
+    if t.op == "const":
+        out.add(t.val)
+    elif t.op == "uf":
+        if t.args[0] not in _NO_LINK:
+            if len(t.args) == 1:
+                out.add(t.args[0])
+            elif not t.args[0].startswith("j."):
+                out.add("uf:" + t.args[0])
+        for a in t.args[1:]:
+            out |= symbols(a)
+    elif t.op in ("forall", "exists"):
+        out |= symbols(t.args[1])
+    else:
+        for a in t.args:
+            out |= symbols(a)
+    r = frozenset(out)
+    _syms_cache[t] = r
+    return r
+
+
+def cone(assertions, seeds):
+    """conjuncts of `assertions` transitively sharing symbols with the seed terms"""
+    want = set()
+    for s in seeds:
+        want |= symbols(s)
+    rest = [(a, symbols(a)) for a in assertions]
+    picked = []
+    changed = True
+    while changed and rest:
+        changed = False
+        keep = []
+        for a, sy in rest:
+            if not sy or (sy & want):
+                if sy:
+                    picked.append(a)
+                    if not sy <= want:
+                        want |= sy
+                    changed = True
+                else:
+                    picked.append(a)
+            else:
+                keep.append((a, sy))
+        rest = keep
+    order = {a: i for i, a in enumerate(assertions)}
+    picked.sort(key=lambda a: order[a])
+    return picked
